@@ -15,10 +15,12 @@
 -/
 import XsVerif.Model.SchemaPaths
 import XsVerif.Model.Lazy
+import XsVerif.Model.PathEval
 import XsVerif.Lemmas.Lazy
+import XsVerif.Lemmas.PathEval
 
 namespace XsVerif.Props.C20
-open XsVerif.SchemaPaths XsVerif.Lazy
+open XsVerif.SchemaPaths XsVerif.Lazy XsVerif.PathEval
 set_option linter.unusedSimpArgs false
 
 /-! ### schema path lookup -/
@@ -239,6 +241,301 @@ theorem find_subst_counterexample :
 theorem find_wildcard_counterexample :
     find wS ["w", "m"] = some gH ∧ getElement wS "m" ["w"] true = some gH ∧
     find wS ["w", "zz"] = some anyW ∧ getElement wS "zz" ["w"] true = none := by decide
+
+
+/-! ### the generated path forms: in-model evaluation on instance trees and on the schema graph -/
+
+/-- `get_element(tag, path)` for a path that ends with a NAME (not `*`): whatever it returns carries the element's
+    own name — a substitution-group member selected by `…/m` is never answered with the head's declaration
+    (the `*` branch has no such test: `find_subst_counterexample`). -/
+theorem getElement_name (S : Schema) (tag : String) (steps : List String) (d : Decl)
+    (h : getElement S tag steps false = some d) : d.name = some tag := by
+  have hg : ∀ d, globalGet S tag = some d → d.name = some tag := by
+    intro d hd
+    have := List.find?_some hd
+    simpa using this
+  unfold getElement at h
+  by_cases he : steps.isEmpty = true
+  · simp only [he, Bool.not_false, Bool.and_self, if_true] at h
+    exact hg d h
+  · simp only [he, Bool.false_and, Bool.false_eq_true, if_false] at h
+    cases hf : find S steps with
+    | none => simp [hf] at h
+    | some x =>
+      simp only [hf] at h
+      by_cases hx : x.isElem = true
+      · simp only [hx, Bool.not_true, Bool.false_eq_true, if_false] at h
+        by_cases hn : x.name = some tag
+        · simp only [hn, bne_self_eq_false, Bool.false_eq_true, if_false, Option.some.injEq] at h
+          subst h; exact hn
+        · have : (x.name != some tag) = true := by simpa using hn
+          simp only [this, if_true] at h
+          exact hg d h
+      · simp [hx] at h
+
+example : getElement wS "m" ["s", "m"] false = some gM ∧ find wS ["s", "m"] = some refH := by decide
+
+/-- Every element selected by a path on an instance tree has a tag chain that matches the path read as a pattern
+    (child step = one tag, `//` step = any tags then one, `*` = any tag, predicates only remove elements):
+    the in-model reading of `resource.iterfind(path)`, absolute and relative, all step kinds. -/
+theorem sel_chain_matches (abs : Bool) (t : Tree) (p : List Step) :
+    ∀ c ∈ selC abs t p, (if abs then matchesB p c.1 else matchesRel t.tag p c.1) = true := by
+  intro c hc
+  cases p with
+  | nil =>
+    cases abs with
+    | true => simp [selC] at hc
+    | false =>
+      simp only [selC, Bool.false_eq_true, if_false, List.mem_singleton] at hc
+      subst hc
+      simp [matchesRel]
+  | cons s ss =>
+    cases abs with
+    | true =>
+      simp only [selC, if_true] at hc
+      obtain ⟨c0, hc0, suf, hx, hs⟩ := selFrom_chain ss _ c hc
+      obtain ⟨mid, tg, h1, h2, h3⟩ := firstAbs_chain s t c0 hc0
+      simp only [if_true, hx, h1]
+      exact matchesB_step s ss mid tg suf h2 h3 hs
+    | false =>
+      simp only [selC, Bool.false_eq_true, if_false] at hc
+      obtain ⟨c0, hc0, suf, hx, hs⟩ := selFrom_chain (s :: ss) _ c hc
+      simp only [List.mem_singleton] at hc0
+      subst hc0
+      simp only [Bool.false_eq_true, if_false, hx]
+      simp [matchesRel, hs]
+
+/-- non-vacuity: `//x` on r(a(x), b(x), x) selects the three x in document order; `b//x[1]`-like forms select one -/
+example : selI true (.node 0 "r" [] [.node 1 "a" [] [.node 2 "x" [] []], .node 3 "b" [] [.node 4 "x" [] []],
+    .node 5 "x" [] []]) [⟨true, some "x", none⟩] = [2, 4, 5] ∧
+    selI true (.node 0 "r" [] [.node 1 "a" [] [.node 2 "x" [] []], .node 3 "b" [] [.node 4 "x" [] []],
+    .node 5 "x" [] []]) [⟨false, some "r", none⟩, ⟨true, some "x", none⟩] = [5, 2, 4] := by decide
+
+/-- no `//` step -/
+def NoDesc (p : List Step) : Prop := ∀ s ∈ p, s.desc = false
+
+/-- the invariant of the schema-side evaluation: every current declaration has the name and the type of the
+    declaration that governs SOME tag chain matching the steps done so far -/
+def Inv (S : Schema) (done : List Step) (cur : List Decl) : Prop :=
+  ∀ d ∈ cur, ∃ ch g, matchesB done ch = true ∧ gov S ch = some g ∧ Same d g
+
+theorem stepS_inv (S : Schema) (hP : Plain S) (hE : EDC S) (hT : TypeKids S) (done : List Step) (hne : done ≠ [])
+    (cur : List Decl) (s : Step) (_hd : s.desc = false) (hI : Inv S done cur) :
+    Inv S (done ++ [s]) (stepS S s cur) := by
+  intro x hx
+  have hx' := mem_dedupS _ _ hx
+  simp only [List.mem_flatMap] at hx'
+  obtain ⟨d, hdc, hxd⟩ := hx'
+  obtain ⟨ch, g, hm, hg, hsame⟩ := hI d hdc
+  have hxk := mem_pickS _ _ _ hxd
+  -- x is a child of d that passes the name test
+  have key : x ∈ S.kids d ∧ ∃ m, x.name = some m ∧ nameOk s m = true := by
+    cases hn : s.name with
+    | none =>
+      simp only [hn] at hxk
+      obtain ⟨h1, _⟩ := hP.1 d x hxk
+      obtain ⟨m, hm'⟩ := Option.isSome_iff_exists.mp h1
+      exact ⟨hxk, m, hm', by simp [nameOk, hn]⟩
+    | some n =>
+      simp only [hn, step, List.mem_filterMap] at hxk
+      obtain ⟨c, hc, hcx⟩ := hxk
+      obtain ⟨h1, h2⟩ := hP.1 d c hc
+      by_cases hmn : matchName c n = true
+      · simp only [hmn, if_true, Option.some.injEq] at hcx
+        have hcn := (matchName_plain h1 h2).mp hmn
+        have hres : resolve S c n = c := by unfold resolve; rw [hcn]
+        rw [hres] at hcx
+        subst hcx
+        exact ⟨hc, n, hcn, by simp [nameOk, hn]⟩
+      · simp [hmn] at hcx
+  obtain ⟨hxin, m, hxm, hok⟩ := key
+  have hk : S.kids d = S.kids g := hT d g hsame.2
+  have hxg : x ∈ S.kids g := hk ▸ hxin
+  have hch : ch ≠ [] := by
+    intro h0
+    subst h0
+    exact hne (matchesB_nil_right done hm)
+  -- the first particle of g with that name governs; EDC gives it the type of x
+  have hsome : ((S.kids g).find? (fun c => c.name == some m)).isSome = true := by
+    rw [List.find?_isSome]
+    exact ⟨x, hxg, by simp [hxm]⟩
+  obtain ⟨gc, hgc⟩ := Option.isSome_iff_exists.mp hsome
+  have hgcin : gc ∈ S.kids g := List.mem_of_find?_eq_some hgc
+  have hgcn : gc.name = some m := by
+    have := List.find?_some hgc
+    simpa using this
+  refine ⟨ch ++ [m], gc, matchesB_snoc s m hok done ch hm, ?_, ?_⟩
+  · rw [gov_snoc S ch m hch, hg]
+    simpa [Option.bind] using hgc
+  · exact ⟨hxm.trans hgcn.symm, hE g x gc hxg hgcin (hxm.trans hgcn.symm)⟩
+
+theorem findFromP_inv (S : Schema) (hP : Plain S) (hE : EDC S) (hT : TypeKids S) :
+    ∀ (ss done : List Step) (cur : List Decl), done ≠ [] → NoDesc ss → Inv S done cur →
+      Inv S (done ++ ss) (findFromP S cur ss)
+  | [], done, cur, _, _, hI => by simpa [findFromP] using hI
+  | s :: ss, done, cur, hne, hnd, hI => by
+    simp only [findFromP]
+    have h1 := stepS_inv S hP hE hT done hne cur s (hnd s (by simp)) hI
+    have h2 := findFromP_inv S hP hE hT ss (done ++ [s]) (stepS S s cur) (by simp)
+      (fun x hx => hnd x (by simp [hx])) h1
+    simpa using h2
+
+/-- Schema side, paths of child steps with names, `*` and positional predicates (SchemaFindParser's rule), on a schema
+    without substitution groups and wildcards (Plain, EDC, type-determined content, unique globals): every
+    declaration selected by the path has the name and the type of the declaration governing some tag chain that the
+    path matches — the lookup never leaves the set of declarations that govern elements the path can select. -/
+theorem findP_sound (S : Schema) (hP : Plain S) (hE : EDC S) (hT : TypeKids S) (hU : GlobalsUnique S)
+    (p : List Step) (hnd : NoDesc p) :
+    ∀ d ∈ findAllP S p, ∃ ch g, matchesB p ch = true ∧ gov S ch = some g ∧ Same d g := by
+  cases p with
+  | nil => intro d hd; simp [findAllP] at hd
+  | cons s ss =>
+    simp only [findAllP]
+    have h0 : Inv S [s] (dedup (globalsS S s)) := by
+      intro d hd
+      have hd' := mem_pickS _ _ _ (mem_dedupS _ _ hd)
+      have key : d ∈ S.globals ∧ ∃ m, d.name = some m ∧ nameOk s m = true := by
+        cases hn : s.name with
+        | none =>
+          simp only [hn] at hd'
+          obtain ⟨h1, _⟩ := hP.2 d hd'
+          obtain ⟨m, hm'⟩ := Option.isSome_iff_exists.mp h1
+          exact ⟨hd', m, hm', by simp [nameOk, hn]⟩
+        | some n =>
+          simp only [hn, List.mem_filter] at hd'
+          obtain ⟨h1, h2⟩ := hP.2 d hd'.1
+          exact ⟨hd'.1, n, (matchName_plain h1 h2).mp hd'.2, by simp [nameOk, hn]⟩
+      obtain ⟨hdin, m, hdm, hok⟩ := key
+      have hsome : (S.globals.find? (fun g => g.name == some m)).isSome = true := by
+        rw [List.find?_isSome]
+        exact ⟨d, hdin, by simp [hdm]⟩
+      obtain ⟨g, hg⟩ := Option.isSome_iff_exists.mp hsome
+      have hgin : g ∈ S.globals := List.mem_of_find?_eq_some hg
+      have hgn : g.name = some m := by
+        have := List.find?_some hg
+        simpa using this
+      have hdg : d = g := hU d hdin g hgin (hdm.trans hgn.symm)
+      subst hdg
+      refine ⟨[m], d, by simp [matchesB, hok], ?_, rfl, rfl⟩
+      simp only [gov, globalGet, hg, govFrom]
+    have h5 : Inv S (s :: ss) (findFromP S (dedup (globalsS S s)) ss) := by
+      simpa using findFromP_inv S hP hE hT ss [s] _ (by simp) (fun x hx => hnd x (by simp [hx])) h0
+    exact h5
+
+/-- paths made of plain NAME steps (predicates allowed) -/
+def NamesOnly (p : List Step) : Prop := ∀ s ∈ p, s.desc = false ∧ ∃ n, s.name = some n
+
+theorem matches_unique : ∀ (p : List Step), NamesOnly p → ∀ ch ch' : List String,
+    matchesB p ch = true → matchesB p ch' = true → ch = ch'
+  | [], _, [], [], _, _ => rfl
+  | [], _, [], _ :: _, _, h => by simp [matchesB] at h
+  | [], _, _ :: _, _, h, _ => by simp [matchesB] at h
+  | _ :: _, _, [], _, h, _ => by simp [matchesB] at h
+  | _ :: _, _, _ :: _, [], _, h => by simp [matchesB] at h
+  | s :: ss, hn, a :: as, b :: bs, h1, h2 => by
+    obtain ⟨hd, n, hsn⟩ := hn s (by simp)
+    simp only [matchesB, hd, Bool.false_and, Bool.or_false, Bool.and_eq_true, nameOk, hsn, beq_iff_eq] at h1 h2
+    have := matches_unique ss (fun x hx => hn x (by simp [hx])) as bs h1.2 h2.2
+    rw [h1.1, h2.1, this]
+
+/-- AGREEMENT of the two evaluations (name paths, with or without positional predicates, Plain schemas): every
+    declaration that the path selects on the schema has the name and the type of the declaration that governs
+    every element the same path selects on the instance. -/
+theorem paths_agree (S : Schema) (hP : Plain S) (hE : EDC S) (hT : TypeKids S) (hU : GlobalsUnique S)
+    (t : Tree) (p : List Step) (hn : NamesOnly p) :
+    ∀ c ∈ selC true t p, ∀ g, gov S c.1 = some g → ∀ d ∈ findAllP S p, Same d g := by
+  intro c hc g hg d hd
+  have h1 := sel_chain_matches true t p c hc
+  simp only [if_true] at h1
+  obtain ⟨ch, g', h2, h3, h4⟩ := findP_sound S hP hE hT hU p (fun s hs => (hn s hs).1) d hd
+  have := matches_unique p hn ch c.1 h2 h1
+  subst this
+  rw [h3] at hg
+  cases hg
+  exact h4
+
+/-- one name has one type wherever it is governed -/
+def UniformNames (S : Schema) : Prop :=
+  ∀ ch1 ch2 g1 g2, gov S ch1 = some g1 → gov S ch2 = some g2 → g1.name = g2.name → g1.ty = g2.ty
+
+/-- FULL statement for paths with `*` steps (`paths_agree` without `NamesOnly`): false
+    (`paths_agree_star_counterexample`, finding C20-F4).  Proved with the guards: the selected declaration carries the
+    element's name (the test `get_element` makes) and the schema gives one type to one name. -/
+theorem paths_agree_star_partial (S : Schema) (hP : Plain S) (hE : EDC S) (hT : TypeKids S) (hU : GlobalsUnique S)
+    (hN : UniformNames S) (t : Tree) (p : List Step) (hnd : NoDesc p) :
+    ∀ c ∈ selC true t p, ∀ g, gov S c.1 = some g → ∀ d ∈ findAllP S p, d.name = g.name → Same d g := by
+  intro c _ g hg d hd hname
+  obtain ⟨ch, g', _, h3, h4⟩ := findP_sound S hP hE hT hU p hnd d hd
+  exact ⟨hname, h4.2.trans (hN ch c.1 g' g h3 hg (h4.1.symm.trans hname))⟩
+
+def wStarPath : List Step := [⟨false, some "r", none⟩, ⟨false, none, none⟩, ⟨false, some "x", none⟩]
+def wStarDoc : Tree := .node 0 "r" [] [.node 1 "b" [] [.node 2 "x" [] []]]
+
+/-- `/r/*/x` on r(a(x:int), b(x:short)): the schema side answers with a's x (int) for the x inside b (short) -/
+theorem paths_agree_star_counterexample :
+    (selC true wStarDoc wStarPath).map (fun c => (c.1, c.2.id)) = [(["r", "b", "x"], 2)] ∧
+    gov wS ["r", "b", "x"] = some lX2 ∧
+    findP wS wStarPath = some lX1 ∧ lX1.name = lX2.name ∧ lX1.ty ≠ lX2.ty := by decide
+
+/-- a path of name steps without predicates is evaluated exactly as by the child-step model of `findAll` -/
+theorem findAllP_names (S : Schema) : ∀ (p : List Step) (ns : List String), (∀ s ∈ p, s.pos = none) →
+    namesOf p = some ns → findAllP S p = findAll S ns := by
+  have hstep : ∀ (s : Step) (n : String) (cur : List Decl), s.pos = none → s.name = some n →
+      stepS S s cur = dedup (cur.flatMap (step S n)) := by
+    intro s n cur h1 h2
+    have : kidsS S s = step S n := by
+      funext d
+      simp only [kidsS, h1, h2, pickS]
+    simp only [stepS, this]
+  have hfrom : ∀ (p : List Step) (ns : List String) (cur : List Decl), (∀ s ∈ p, s.pos = none) →
+      namesOf p = some ns → findFromP S cur p = findFrom S cur ns := by
+    intro p
+    induction p with
+    | nil =>
+      intro ns cur _ h
+      simp only [namesOf, Option.some.injEq] at h
+      subst h; rfl
+    | cons s ss ih =>
+      intro ns cur hp h
+      simp only [namesOf] at h
+      cases hn : s.name with
+      | none => simp [hn] at h
+      | some n =>
+        cases hr : namesOf ss with
+        | none => simp [hn, hr] at h
+        | some ms =>
+          simp only [hn, hr] at h
+          by_cases hd : s.desc = true
+          · simp [hd] at h
+          · simp only [hd, Bool.false_eq_true, if_false, Option.some.injEq] at h
+            subst h
+            simp only [findFromP, findFrom, hstep s n cur (hp s (by simp)) hn]
+            exact ih ms _ (fun x hx => hp x (by simp [hx])) hr
+  intro p ns hp h
+  cases p with
+  | nil =>
+    simp only [namesOf, Option.some.injEq] at h
+    subst h; rfl
+  | cons s ss =>
+    simp only [namesOf] at h
+    cases hn : s.name with
+    | none => simp [hn] at h
+    | some n =>
+      cases hr : namesOf ss with
+      | none => simp [hn, hr] at h
+      | some ms =>
+        simp only [hn, hr] at h
+        by_cases hd : s.desc = true
+        · simp [hd] at h
+        · simp only [hd, Bool.false_eq_true, if_false, Option.some.injEq] at h
+          subst h
+          simp only [findAllP, findAll, globalsS, hn, hp s (by simp), pickS]
+          exact hfrom ss ms _ (fun x hx => hp x (by simp [hx])) hr
+
+/-- non-vacuity of `paths_agree` / `findP_sound`: positional predicates on both sides, one local name with two types -/
+example : findAllP wS [⟨false, some "r", none⟩, ⟨false, some "b", some 2⟩, ⟨false, some "x", some 1⟩] = [lX2] ∧
+    selI true (.node 0 "r" [] [.node 1 "b" [] [], .node 2 "b" [] [.node 3 "x" [] []]])
+      [⟨false, some "r", none⟩, ⟨false, some "b", some 2⟩, ⟨false, some "x", some 1⟩] = [3] := by decide
 
 /-! ### partial validation = restriction of the whole; depth cut -/
 
